@@ -20,7 +20,11 @@ def main():
     if a.replay:
         doc = json.load(open(a.replay))
         r = common.Run(a.prop, "replay", 0)
-        getattr(mod, "replay")(r, doc["check"], doc["input"])
+        inp = doc["input"]
+        if isinstance(inp, dict) and set(inp) == {"fn", "args"}:
+            getattr(mod, inp["fn"])(r, *inp["args"])
+        else:
+            getattr(mod, "replay")(r, doc["check"], inp)
         print(json.dumps(r.out()))
         if r.violations:
             print("replay: violation reproduced:", r.violations[0]["observed"])
